@@ -29,7 +29,8 @@ def run(rep, tier, seed):
     if quick:
         per_system = [[(0, 0, 1)], [(5, 1, 1)], [(5, 1, 1), (0, 0, 1)], [(0, 0, 1), (1, 0, 0)], [(1, 0, 0)], [(5, 0, 1)], [(5, 1, 0), (0, 0, 1)]]
     else:
-        per_system = [combos] * len(SYSTEMS)
+        short = [(0, 0, 1), (0, 1, 0), (1, 0, 0), (5, 1, 1), (5, 0, 1)]
+        per_system = [combos if pm != "z3" and system != "c-inference" else short for system, pm, _ in SYSTEMS]
     for (system, pm, lvl), cs in zip(SYSTEMS, per_system):
         for c in cs:
             for weakly in ((False,) if quick or system == "c-inference" or c not in ((0, 0, 1), (5, 1, 1)) else (False, True)):
